@@ -3,6 +3,7 @@ package isaacdatabase
 import (
 	"github.com/pkg/errors"
 	"github.com/spikeekips/mitum/base"
+	"github.com/spikeekips/mitum/storage"
 	leveldbstorage "github.com/spikeekips/mitum/storage/leveldb"
 	"github.com/spikeekips/mitum/util"
 	"github.com/spikeekips/mitum/util/encoder"
@@ -33,8 +34,20 @@ func newLeveldbTempSyncPool(
 	}
 }
 
+// stenc returns the storage together with the encoder; Close() takes both away.
+func (db *LeveldbTempSyncPool) stenc() (*leveldbstorage.PrefixStorage, encoder.Encoder, error) {
+	db.RLock()
+	defer db.RUnlock()
+
+	if db.pst == nil || db.enc == nil {
+		return nil, nil, storage.ErrClosed.WithStack()
+	}
+
+	return db.pst, db.enc, nil
+}
+
 func (db *LeveldbTempSyncPool) BlockMap(height base.Height) (m base.BlockMap, found bool, _ error) {
-	pst, err := db.st()
+	pst, enc, err := db.stenc()
 	if err != nil {
 		return nil, false, err
 	}
@@ -52,7 +65,7 @@ func (db *LeveldbTempSyncPool) BlockMap(height base.Height) (m base.BlockMap, fo
 			return nil, true, err
 		}
 
-		if err := encoder.Decode(db.enc, fb, &m); err != nil {
+		if err := encoder.Decode(enc, fb, &m); err != nil {
 			return nil, true, err
 		}
 
@@ -61,12 +74,12 @@ func (db *LeveldbTempSyncPool) BlockMap(height base.Height) (m base.BlockMap, fo
 }
 
 func (db *LeveldbTempSyncPool) SetBlockMap(m base.BlockMap) error {
-	b, err := EncodeNoHeadersFrame(db.enc, m)
+	pst, enc, err := db.stenc()
 	if err != nil {
 		return err
 	}
 
-	pst, err := db.st()
+	b, err := EncodeNoHeadersFrame(enc, m)
 	if err != nil {
 		return err
 	}
